@@ -432,13 +432,17 @@ func (w *world) buildRequest(method, path string, c cred, transport string) *htt
 
 type probeResult struct {
 	Code int
-	Body string
+	Body string // the body, followed by the values of all response headers (a rejected request reveals nothing there either)
 }
 
 func (w *world) do(req *http.Request) probeResult {
 	rec := httptest.NewRecorder()
 	w.handler.ServeHTTP(rec, req)
-	return probeResult{rec.Code, rec.Body.String()}
+	hdr := ""
+	for k, vs := range rec.Header() {
+		hdr += "\n" + k + ": " + strings.Join(vs, ", ")
+	}
+	return probeResult{rec.Code, rec.Body.String() + hdr}
 }
 
 func pathOf(pattern string) string {
@@ -465,7 +469,7 @@ func checkDiscovery(t testing.TB, rs []route, profiling bool) {
 
 // TestC14 enumerates route x method x credential class x transport and random variants.
 func TestC14(t *testing.T) {
-	col := ev.Get("C14", "routes", "routes and methods discovered with chi.Walk over the server's router (profiling on and off) x both slash variants and spellings of the path with dot segments, doubled slashes or the profiling prefix in front x all HTTP methods x generated invalid credentials of 23 classes (none, empty, garbage, oversized, wrong scheme, wrong/prefix/empty secret, alg none with/without signature, HS384/HS512/RS256 headers with the right secret, expired or not yet valid (from 3 s outside the window), tampered payload/header, truncated/bit-flipped signature, 2/4/5 segments, signature of another payload) x 6 transports (Authorization in three spellings, cookie, query, header+cookie); oracle: registered (method,route) => exactly 401, any other => not 2xx; body reveals none of the planted ids/names/log and variable markers; runner state identical before and after; profiling off => /debug paths 404; positive controls with a valid token must pass; non-trivial = every probe of a registered route; distinct by (method, route, credential class, transport)")
+	col := ev.Get("C14", "routes", "routes and methods discovered with chi.Walk over the server's router (profiling on and off) x both slash variants and spellings of the path with dot segments, doubled slashes or the profiling prefix in front x all HTTP methods x generated invalid credentials of 23 classes (none, empty, garbage, oversized, wrong scheme, wrong/prefix/empty secret, alg none with/without signature, HS384/HS512/RS256 headers with the right secret, expired or not yet valid (from 3 s outside the window), tampered payload/header, truncated/bit-flipped signature, 2/4/5 segments, signature of another payload) x 6 transports (Authorization in three spellings, cookie, query, header+cookie); oracle: registered (method,route) => exactly 401, any other => not 2xx; body and response headers reveal none of the planted ids/names/log and variable markers and hand out no valid token; runner state identical before and after; profiling off => /debug paths 404; positive controls with a valid token must pass; non-trivial = every probe of a registered route; distinct by (method, route, credential class, transport)")
 	for _, profiling := range []bool{false, true} {
 		w := newWorld(t, profiling)
 		rs := walk(t, w.handler)
@@ -563,6 +567,9 @@ func TestC14(t *testing.T) {
 					if strings.Contains(res.Body, m) {
 						rt.Fatalf("%s: response reveals %q", desc, m)
 					}
+				}
+				if carriesValidToken(res.Body) {
+					rt.Fatalf("%s: the response hands out a valid token", desc)
 				}
 			}
 			if d := w.digest(); d != base {
